@@ -17,14 +17,17 @@ def iterate_axis_combinations(items):
     """
     items_set = frozenset(items)
     yield (items_set,)
+    # enumerate in sorted order: the partition found first must not depend on set iteration order
+    # (hash seed) nor on the order in which the axes were listed
+    sorted_items = sorted(items_set)
     N = len(items)
     for nleft in range(N - 1, 0, -1):
         nright = N - nleft
         for sub_loop, sub_items in itertools.product(
             range(min(nright, nleft), 0, -1),
-            itertools.combinations(items_set, nleft),
+            itertools.combinations(sorted_items, nleft),
         ):
             these = frozenset(sub_items)
-            those = items_set - these
+            those = sorted(items_set - these)
             others = [frozenset(i) for i in itertools.combinations(those, sub_loop)]
             yield (these,) + tuple(others)
